@@ -266,6 +266,15 @@ getbuffer (PyObject *obj, Py_buffer *view, int flags)
         return -1;
     }
 
+    if (array.stride() != 1 && (flags & PyBUF_STRIDES) != PyBUF_STRIDES)
+    {
+        //  A consumer that does not ask for strides treats the buffer as
+        // contiguous: it would read, or overwrite, the memory between the
+        // elements of a strided array (v.x of a V3fArray) and beyond.
+        PyErr_SetString (PyExc_BufferError, "Fixed array is not contiguous");
+        return -1;
+    }
+
     BufferAPI<ArrayT> *api   = nullptr;
     bool writableBuffer = ((flags & PyBUF_WRITABLE) == PyBUF_WRITABLE);
     if (writableBuffer && !array.writable())
